@@ -131,20 +131,35 @@ def register(reg):
 
     # ---- urlencoded forms: the declared length is checked before anything is read -----------------------------
     from pyvc.values import VBuiltin, VObj
-    St = reg.model("BodyStream", fields={"nread": "int"})
+    St = reg.model("BodyStream", fields={"nread": "int", "last": "bytes"})     # last (ghost): what the last read() returned
     reg.contract("model:BodyStream.read", prop=P, trusted=True, param_names=["self"], returns="bytes",
-                 modifies=["self.nread"], ensures=["self.nread == old(self.nread) + 1"])
-    reg.overrides["std:urllib.parse.parse_qsl"] = lambda interp: VBuiltin(
-        "urllib.parse.parse_qsl", lambda it, a, k, n: it.fresh("opaque:pairs", "qsl"))
+                 modifies=["self.nread", "self.last"], ensures=["self.nread == old(self.nread) + 1", "result == self.last"])
+    import z3 as _z3
+    from pyvc.values import VOpaque, opaque_sort, StrS as _StrS, BoolS as _BoolS
+    from pyvc.ops import truthy as _truthy
+    PQSL = _z3.Function("parse_qsl", _StrS, _BoolS, _StrS, opaque_sort("pairs"))       # (text, keep_blank_values, errors)
+    MD_OF = _z3.Function("multidict_of", opaque_sort("pairs"), opaque_sort("multidict"))
+
+    def _parse_qsl(it, a, k, n):
+        text = it.need(a[0])
+        keep = _truthy(it.need(k["keep_blank_values"])) if "keep_blank_values" in k else _z3.BoolVal(False)
+        errors = it.need(k["errors"]).z if "errors" in k else _z3.StringVal("replace")
+        return VOpaque(PQSL(text.z, keep, errors), "pairs")
+    reg.overrides["std:urllib.parse.parse_qsl"] = lambda interp: VBuiltin("urllib.parse.parse_qsl", _parse_qsl)
+    reg.builtin_spec("form_of", lambda it, a, k, n: VOpaque(MD_OF(PQSL(a[0].z, _z3.BoolVal(True), _z3.StringVal("werkzeug.url_quote"))),
+                                                            "multidict"), None)
     FP = reg.model("FormDataParser", cls="werkzeug/formparser.py:FormDataParser",
                    fields={"max_form_memory_size": "Optional[int]", "cls": "opaque:multidict_class"})
-    reg.overrides["call:multidict_class"] = lambda it, fv, a, k, n: it.fresh("opaque:multidict", "md")
+    reg.overrides["call:multidict_class"] = lambda it, fv, a, k, n: (
+        VOpaque(MD_OF(a[0].z), "multidict") if a and isinstance(a[0], VOpaque) and a[0].kind == "pairs" else it.fresh("opaque:multidict", "md"))
     reg.contract(
-        "werkzeug/formparser.py:FormDataParser._parse_urlencoded", prop=P, self_model=FP,
+        "werkzeug/formparser.py:FormDataParser._parse_urlencoded", prop="C10,C02", self_model=FP,
         params={"stream": St, "mimetype": "str", "content_length": "Optional[int]", "options": "opaque:options"},
         ensures=["not (self.max_form_memory_size is not None and content_length is not None and "
                  "     content_length > self.max_form_memory_size)",
-                 "result[0] is stream"],
+                 "result[0] is stream",
+                 # C02: the form is every key=value pair of the (decoded) body, fields with an empty value included
+                 "result[1] == form_of(stream.last.decode())"],
         raises={"RequestEntityTooLarge": "self.max_form_memory_size is not None and content_length is not None and "
                                          "content_length > self.max_form_memory_size",
                 "UnicodeDecodeError": "True"},
